@@ -101,6 +101,25 @@ Definition gsn_epilogue (H : fld) : fld * fld := (cropf h w H, cropf h w (Pf H))
 Definition gs_numpy (n : nat) (target : rfld) (H0 : fld) : fld * fld := gsn_epilogue (iter n (gsn_body target) H0).
 End GSNumpy.
 
+(* ------------------------------------------------------------------------------------------
+   odak.wave.gerchberg_saxton_3d (NumPy, repaired crop window, target_type = 'no constraint'): one padded
+   hologram, L planes; every iteration replaces the hologram by the SUM over the planes of the zero-padded,
+   cropped, unit-amplitude back-propagated layers; only the cropped hologram is returned (no reconstruction). *)
+Fixpoint fsum (n : nat) (f : nat -> fld) : fld := match n with O => fzero | S k => fadd (fsum k f) (f k) end.
+Fixpoint csum (n : nat) (f : nat -> C) : C := match n with O => RtoC 0 | S k => Cplus (csum k f) (f k) end.
+Definition rabs_f (x : rfld) : rfld := fun i j => Rabs (x i j).
+Section GS3D.
+Variables h w L : nat.
+Variables Pf Pb : nat -> fld -> fld.     (* propagate_beam by +distances[d] / -distances[d] on the padded grid *)
+Definition gs3_layer (target : rfld) (d : nat) (H : fld) : fld :=
+  let R := Pf d H in
+  let R' := gcf_f (paste (win0 h) (win0 h + h) (win0 w) (win0 w + w) (rabs_f target) (amp_f R)) (arg_f R) in
+  padf h w (cropf h w (gcf_f rone (arg_f (Pb d R')))).
+Definition gs3_body (targets : nat -> rfld) (H : fld) : fld := fsum L (fun d => gs3_layer (targets d) d H).
+Definition gs3_epilogue (H : fld) : fld := cropf h w H.
+Definition gs3d (n : nat) (targets : nat -> rfld) (H0 : fld) : fld := gs3_epilogue (iter n (gs3_body targets) H0).
+End GS3D.
+
 (* the window the code cut before the repair: centre -+ size/2 around the centre (2h)/2 = h of the padded
    grid: it starts where the padded content starts but is 2 (h/2) long *)
 Definition legacy_start (h : nat) : nat := (2 * h) / 2 - h / 2.
